@@ -241,6 +241,15 @@ package encoding
 //@   modifies d.idx
 //@   ensures[slots_in_range_only] result == (old(d.startTime + d.idx) <= d.endTime) && (result ==> d.idx == old(d.idx) + 1) && (!result ==> d.idx == old(d.idx))
 //@ end
+//@ # the value of the slot whose mask bit was just read: what the XOR decoder function makes of the stream at the read position
+//@ func TSDDecoder.Value
+//@   prop C14
+//@   opaque tok bitsval
+//@   requires d.values != nil ==> xdOK(d.values)
+//@   modifies d.values.err, d.values.first, d.values.val, d.values.leading, d.values.trailing, d.values.br.b, d.values.br.count, d.values.br.err, d.values.br.buf.index
+//@   ensures[the_next_value_of_the_stream] (d.values != nil && old(d.values.err) == nil && old(d.values.br.err) == nil && xorDecValid(contents(d.values.br.buf.buf), old(bit.rpos(d.values.br)), old(d.values.first), old(d.values.leading), old(d.values.trailing)) && old(bit.rpos(d.values.br)) + xorDecLen(contents(d.values.br.buf.buf), old(bit.rpos(d.values.br)), old(d.values.first), old(d.values.leading), old(d.values.trailing)) <= d.values.br.buf.length * 8) ==> result == xorDecVal(contents(d.values.br.buf.buf), old(bit.rpos(d.values.br)), old(d.values.first), old(d.values.val), old(d.values.leading), old(d.values.trailing))
+//@   ensures[no_decoder_no_value] d.values == nil ==> result == 0
+//@ end
 //@ func TSDDecoder.HasValueWithSlot
 //@   prop C14
 //@   requires d.reader != nil ==> bit.rSane(d.reader)
